@@ -120,14 +120,23 @@ def idPos (tag arity : Nat) : Option Nat :=
   | some op => if op.fields.length + 1 = arity then (op.fields.idxOf? idRole).map (· + 1) else none
   | none => none
 
-/-- the integer a term denotes, if it denotes one -/
-def intOf (t : Term) : Option Int :=
-  match t.den with
-  | .int v => some v
-  | _ => none
+/-- the integer a term stands for, if it is an integer term (`Integer` or `BigInt`) -/
+def intOf (t : Term) : Option Int := Edp.Control.intOf t
+
+open Edp.Control in
+/-- every element the library's parser arm reads as a `u64` id is the protocol's `Id` element of the operation with
+that tag and arity -/
+def idsAtSpec (tbl : Table) (a : FromArm) : Bool :=
+  a.fields.all fun p =>
+    match p.2 with
+    | .elem _ => true
+    | .uid k =>
+      match enumDisc tbl a.ty with
+      | some d => decide (idPos d a.arity = some k)
+      | none => false
 
 /-- is `t` a control tuple the protocol allows: a tuple headed by `Integer 0..255`; and if the operation has an `Id`
-element, that element denotes an integer `0 ≤ id < 2^64` -/
+element, that element stands for an integer `0 ≤ id < 2^64` (as `Integer` or as `BigInt`, any digit count) -/
 inductive Shape where
   | notControl
   | badId
